@@ -18,6 +18,7 @@ pub fn main() {
         "shutdown" => crate::e2e::shutdown::run(&args),
         "faults" => crate::e2e::faults::run(&args),
         "tlsworld" => crate::e2e::tlsworld::run(&args),
+        "deadline" => crate::e2e::deadline::run(&args),
         "sniff" => crate::sniff::run(&args),
         "panics" => crate::e2e::panics::run(&args),
         "iolab" => crate::iolab::run(&args),
